@@ -28,6 +28,12 @@ func ExtractCharClassRanges(re *syntax.Regexp) [][2]byte {
 		return nil
 	}
 
+	// A lazy repetition ([a-z]+?) prefers the shortest match; the searcher
+	// implements greedy runs only.
+	if re.Flags&syntax.NonGreedy != 0 {
+		return nil
+	}
+
 	if len(re.Sub) != 1 {
 		return nil
 	}
